@@ -23,7 +23,9 @@ LEAN_SETTING_NOTE = (
 def _specs_head(tier):
     # ... and the projection of every input term on the subspaces (block (i, j) of what the algorithm sees IS L_i^dagger A R_j, whatever the term looks like in the original basis)
     from .format_props import specs_head, specs_projection
-    return specs_head(tier) + specs_projection(tier)
+    # ... and the implicit-mode solvers (direct and KPM): in implicit mode THEY are "the solver" of the Lean setting (H0 V - V H0 = z on the implicit block)
+    from .implicit_props import specs_direct
+    return specs_head(tier) + specs_projection(tier) + specs_direct(tier)
 
 
 def specs_hermitian(tier):
